@@ -94,11 +94,13 @@ fn main() {
                 }
                 i += 1;
             }
+            // "@path": read the document from a file (documents too long for argv)
+            let html_bytes: Vec<u8> = if let Some(path) = args[5].strip_prefix('@') { std::fs::read(path).unwrap() } else { args[5].as_bytes().to_vec() };
             if std::env::var("SPEC_LINE").is_ok() {
-                let spec = pool::Spec { id: 0, route, cfg: cfg.clone(), width, widths: vec![], html: args[5].as_bytes().to_vec(), want_dom: true };
+                let spec = pool::Spec { id: 0, route, cfg: cfg.clone(), width, widths: vec![], html: html_bytes.clone(), want_dom: true };
                 println!("{}", pool::spec_to_line(&spec));
             } else {
-                let o = core::run_impl(&cfg, route, width, args[5].as_bytes());
+                let o = std::thread::Builder::new().stack_size(8 * 1024 * 1024).spawn(move || core::run_impl(&cfg, route, width, &html_bytes)).unwrap().join().unwrap();
                 println!("{:#?}", o);
             }
         }
